@@ -199,7 +199,7 @@ func init() {
 				// equality is by value: a value computed by a function (held in whatever Go type the function
 				// returns) equals the same value written as a literal, bare and inside arrays and objects
 				twins := [][2]string{
-					{`$length("ab")`, `2`}, {`$count([1,2])`, `2`}, {`$keys({"a":1,"b":2})`, `["a","b"]`}, {`$split("a,b", ",")`, `["a","b"]`},
+					{`$length("ab")`, `2`}, {`$count([1,2])`, `2`}, {`$keys({"a":1})`, `"a"`}, {`$split("a,b", ",")`, `["a","b"]`},
 					{`$map([1,2], function($v,$i){$i})`, `[0,1]`}, {`$string(1)`, `"1"`}, {`$number("2")`, `2`}, {`$not(false)`, `true`},
 					{`$append([1], [$count([1,2])])`, `[1,2]`}, {`$spread({"a":1})`, `[{"a":1}]`}, {`$merge([{"a":$length("z")}])`, `{"a":1}`},
 					{`$sort([2,1])`, `[1,2]`}, {`$reverse(["a","b"])`, `["b","a"]`}, {`$lookup({"k":[1]}, "k")`, `[1]`}, {`$sum([1,1])`, `2`},
